@@ -187,7 +187,8 @@ double Integrate(std::function<double(double)> func, double a, double b, const s
 	}
 	else if(method == "Adaptive-Simpson")
 	{
-		double eps = Find_Epsilon(func, a, b, 1e-9);
+		// The adaptive Simpson estimate is only guaranteed to four times the requested tolerance; ask for a tenth of the target precision 1e-9.
+		double eps = Find_Epsilon(func, a, b, 1e-10);
 		return sign * Integrate(func, a, b, eps);
 	}
 	else
